@@ -2,9 +2,9 @@ import Proofs.UncondBase
 /-!
 # UncondC14 — C14: public-key recovery on the named curves with NO primality hypothesis
 
-For every curve of `NamedPrimes.unconditionalCurves` (13 curves: p and n carry kernel-checked Pocklington certificates, the
+For every curve of `NamedPrimes.unconditionalCurves` (all 17 curves of the table: p and n carry kernel-checked Pocklington certificates, the
 order of the base point is checked by kernel evaluation) the headline statements of C14 hold without any hypothesis about the
-curve, (no `#E(𝔽_p) = n` hypothesis is needed for honest signatures); for the 4 curves with one uncertified number (`…_<curve>`) with exactly that one.
+curve, (no `#E(𝔽_p) = n` hypothesis is needed for honest signatures).
 Generated from `Props/Uncond.lean` by harness/tools/primecerts/mkuncond_split.py.
 -/
 namespace UncondC14
